@@ -257,6 +257,7 @@ func c08Exec(c c08Case, st *lab.Stats) *lab.Fail {
 	}
 	ends := make([]endInfo, len(c.Conns))
 	var wg sync.WaitGroup
+	var stalledNotClosed []int
 	var stopDone chan struct{}
 	if c.Mode == "stop" {
 		stopDone = make(chan struct{})
@@ -285,9 +286,29 @@ func c08Exec(c c08Case, st *lab.Stats) *lab.Fail {
 				ends[tag] = endInfo{"client-closed", lab.NextSeq()}
 				return
 			case c.Mode == "stop" && cs.Stall && cs.InFlight == "writing":
-				// said goodbye already, reads nothing for a while: only the server's own
-				// shutdown handling can free the handlers that are parked in Write
-				time.Sleep(300 * time.Millisecond)
+				// said goodbye already and reads NOTHING: only the server's own shutdown
+				// handling can free the handlers that are parked in Write. The server must
+				// finish this connection (OnClose) by itself within the bound.
+				mu.Lock()
+				myID, known := connIDOfTag[tag]
+				mu.Unlock()
+				deadline := time.Now().Add(6 * time.Second)
+				finished := false
+				for known && !finished && time.Now().Before(deadline) {
+					for _, e := range log.snapshot() {
+						if e.Kind == "onclose" && e.ConnID == myID {
+							finished = true
+						}
+					}
+					if !finished {
+						time.Sleep(5 * time.Millisecond)
+					}
+				}
+				if known && !finished {
+					mu.Lock()
+					stalledNotClosed = append(stalledNotClosed, tag)
+					mu.Unlock()
+				}
 			case c.Mode == "stop":
 				// the read loop notices the shutdown only between requests: keep
 				// sending one more request until the server ends the connection
@@ -365,6 +386,13 @@ collect:
 		stopAll()
 	}
 	time.Sleep(2 * time.Millisecond) // a duplicate OnClose would come right after the first
+	mu.Lock()
+	stalled := append([]int{}, stalledNotClosed...)
+	mu.Unlock()
+	if len(stalled) > 0 {
+		tag := stalled[0]
+		return lab.Failf("stalled-connection-not-closed-at-stop", "connection %d (%s): its read loop had ended (Unbind), %d handlers were parked writing to a client that reads nothing, Stop was called - and 6 s later the server still had not closed the connection / called OnClose (it only did once the client went away)", tag, c.Conns[tag].Transport, c.Conns[tag].K)
+	}
 	evs := log.snapshot()
 	mu.Lock()
 	ids := map[int]int{}
